@@ -14,7 +14,7 @@ EXTENDS Integers, Sequences, BigRat
 
 WP == 256
 Tr(q) == BRTrunc(q, WP, -1)
-ErrAbs == BRPow2(-(WP - 26))      \* bound on the absolute error of LnApprox / of one ExpTail term sum
+ErrAbs == BRPow2(-200)            \* bound on the absolute error of LnApprox (|ln| < 750, relative error 2^-220) and of ExpTailSeries
 
 \* sum_{k=0..K-1} z^(2k+1)/(2k+1)  (atanh series), |z| <= 1/3
 RECURSIVE AtanhIter(_, _, _, _, _)
@@ -29,16 +29,30 @@ Ln2 == BRMul(BR(2), Atanh(BRFrac(1, 3), 90))
 \* ln((16+k)/16) = 2 atanh(k/(32+k)), k = 0..15: evaluated once (constant-level definition)
 LnTab == [k \in 0..15 |-> IF k = 0 THEN BRZero ELSE BRMul(BR(2), Atanh(BRFrac(k, 32 + k), 70))]
 
-\* ln q for a positive rational q.  q = m 2^e, m in [1,2); k = floor(16(m-1)); r = 16m/(16+k) in [1, 17/16);
+\* atanh(z)/z = sum_k z^(2k)/(2k+1), a number in [1, 1.1] for |z| < 1/3: truncating *it* to WP bits gives a
+\* relative error of 2^-(WP-8) in atanh(z) = z * (atanh(z)/z), however small z is.
+RECURSIVE AtanhOverZIter(_, _, _, _, _)
+AtanhOverZIter(z2, pw, k, K, acc) ==
+    IF k = K THEN acc
+    ELSE AtanhOverZIter(z2, Tr(BRMul(pw, z2)), k + 1, K, BRAdd(acc, Tr(BRDiv(pw, BR(2 * k + 1)))))
+AtanhRel(z, K) == BRMul(z, AtanhOverZIter(BRMul(z, z), BROne, 0, K, BRZero))
+
+\* ln q for a rational q >= 1.  q = m 2^e, m in [1,2); k = floor(16(m-1)); r = 16m/(16+k) in [1, 17/16);
 \* ln q = e ln 2 + ln((16+k)/16) + 2 atanh((r-1)/(r+1)), |z| < 1/33, remainder after 30 terms < 33^-61 < 2^-300.
-LnApprox(q) ==
+\* For q in [1, 17/16) the first two summands vanish and the result 2 z (atanh(z)/z) is *relatively* accurate
+\* (z is exact), so ln is good to 2^-240 relative next to 1 as well, where the properties need it most.
+LnPos(q) ==
     LET e == BRILog2(q)
         m == BRMul(q, BRPow2(-e))
         k == BRFloorInt(BRMul(BRSub(m, BROne), BR(16)))
         r == BRDiv(BRMul(m, BR(16)), BR(16 + k))
         z == BRDiv(BRSub(r, BROne), BRAdd(r, BROne))
     IN  IF q = BROne THEN BRZero
-        ELSE BRAdd(BRAdd(BRMul(BR(e), Ln2), LnTab[k]), BRMul(BR(2), Atanh(z, 30)))
+        ELSE BRAdd(BRAdd(BRMul(BR(e), Ln2), LnTab[k]), BRMul(BR(2), AtanhRel(z, 30)))
+\* ln q for any positive rational: below 1 through the exact reciprocal, so that q = 1 - delta is as good as 1 + delta
+LnApprox(q) == IF BRLt(q, BROne) THEN BRNeg(LnPos(BRDiv(BROne, q))) ELSE LnPos(q)
+\* relative error of LnApprox (and, since |ln q| < 750 for every positive f64, an absolute bound)
+LnRelErr == BRPow2(-220)
 LnLo(q) == BRSub(LnApprox(q), ErrAbs)
 LnHi(q) == BRAdd(LnApprox(q), ErrAbs)
 
